@@ -1,15 +1,27 @@
 #!/usr/bin/env python3
 """vcheck <property id> [--tier quick|thorough]   (VERIF_SEED, VERIF_TIER honoured)"""
-import importlib, os, sys
-sys.path.insert(0, os.path.dirname(os.path.abspath(__file__)))
-sys.path.insert(0, os.path.join(os.path.dirname(os.path.abspath(__file__)), "props"))
+import importlib, os, sys, glob
+HERE = os.path.dirname(os.path.abspath(__file__))
+sys.path.insert(0, HERE)
+sys.path.insert(0, os.path.join(HERE, "props"))
 import vlib
 
-MODULES = {
-    "C03": "locks", "C04": "locks",
-}
+
+def discover():
+    mods = {}
+    for f in sorted(glob.glob(os.path.join(HERE, "props", "*.py"))):
+        name = os.path.basename(f)[:-3]
+        src = open(f).read()
+        for line in src.splitlines():
+            if line.startswith("PROPS"):
+                for pid in eval(line.split("=", 1)[1]):
+                    mods[pid] = name
+                break
+    return mods
+
 
 if __name__ == "__main__":
+    MODULES = discover()
     if len(sys.argv) < 2 or sys.argv[1] not in MODULES:
         print("usage: vcheck.py <%s> [--tier quick|thorough]" % "|".join(sorted(MODULES)))
         sys.exit(2)
